@@ -85,6 +85,37 @@ fn current_tid() -> Option<u64> {
   l.file_name()?.to_str()?.parse().ok()
 }
 
+/// Kernel thread id of the calling thread (None under Miri / without /proc).
+pub fn tid_of_current() -> Option<u64> {
+  current_tid()
+}
+
+/// Scheduler state letter of one task of this process ('S' sleeping, 'R' runnable, ...).
+pub fn task_state(tid: u64) -> Option<char> {
+  task_snap(tid).map(|(c, _, _)| c)
+}
+
+/// Waits (at most `budget`) until thread `tid` has been seen sleeping in `need` consecutive samples or `stop()` holds.
+/// Only a sensitivity aid for scenarios of the form "B must be blocked behind a lock A holds before A goes on":
+/// the verdicts of such scenarios never depend on the answer. Returns true when the thread was seen asleep.
+pub fn wait_asleep(tid: impl Fn() -> Option<u64>, stop: impl Fn() -> bool, need: u32, budget: Duration) -> bool {
+  let t0 = std::time::Instant::now();
+  let mut run = 0;
+  while t0.elapsed() < budget && !stop() {
+    match tid().and_then(task_state) {
+      Some('S') => {
+        run += 1;
+        if run >= need {
+          return true;
+        }
+      }
+      _ => run = 0,
+    }
+    std::thread::sleep(Duration::from_micros(150));
+  }
+  false
+}
+
 /// Registers the calling thread as a worker of the running execution (see `chaos::enter`).
 pub fn register_worker() {
   if let Some(t) = current_tid() {
